@@ -350,4 +350,107 @@ theorem finishWithMac_finLay (macFn : Tsig → List UInt8 → List UInt8) (s : S
             (e2.pre _ (by show x.a + x.k + 1 < s1.cursor; omega))
         · rw [hts]; simp only [Option.isSome_some, if_true, List.map_cons, List.map_nil, itTy, hty2, h250]
 
+
+/-- **the finished message decodes completely** under the independent decoder of
+    `QV.Spec.MsgDecode`, in every compression mode: from a valid writer state whose layout is
+    structured, whatever `finish` returns (if at most 65535 octets, as every DNS message is) decodes,
+    with the writer's counts; the additional section ends with the OPT record iff EDNS is set, then
+    the TSIG record iff a TSIG is set -/
+theorem finish_decodes (macFn : Tsig → List UInt8 → List UInt8) (s : State) (hI : I s) (hL : SLay s)
+    (m : Bytes) (mac : Option (List UInt8)) (hf : finish s macFn = .ok (m, mac)) (hsz : m.size ≤ 65535) :
+    ∃ d, specDecodeMsg m = some d ∧ d.questions.length = s.qdcount ∧ d.an.length = s.ancount ∧
+      d.ns.length = s.nscount ∧ d.ar.length = s.arcount ∧
+      ∃ body, d.ar.map (·.ty) = body ++ (if s.edns.isSome then [41] else []) ++
+        (if s.tsig.isSome then [250] else []) := by
+  unfold finish at hf
+  cases hw : finishWithMac macFn s with
+  | mk r sF =>
+    rw [hw] at hf
+    cases r with
+    | err e => cases hf
+    | panic => cases hf
+    | ok p =>
+      obtain ⟨len, mc⟩ := p
+      simp only [Out.ok.injEq, Prod.mk.injEq] at hf
+      obtain ⟨hm, _⟩ := hf
+      obtain ⟨hlim, hlc, hszF⟩ := finishWithMac_len macFn s hI.inv len mc sF hw
+      have hls := hI.inv.lim_size
+      have hcF : sF.cursor ≤ sF.octets.size := by omega
+      have hmsz : m.size = sF.cursor := by rw [← hm, hlc]; exact extract_size _ _ hcF
+      have hle : sF.cursor ≤ 65535 := by omega
+      obtain ⟨wF, _, hcnt, qs, rs, o, t, hq, hr, hql, hrl, hot, htt⟩ := finishWithMac_finLay macFn s hI hL len mc sF hw hle
+      rw [hlc] at hm
+      subst hm
+      have hsz' := extract_size sF.octets sF.cursor hcF
+      have h12 : 12 ≤ sF.cursor := wF.c12
+      -- the counts
+      have hl2 : ∀ x, (u16be x).length = 2 := fun _ => rfl
+      obtain ⟨c123, c4⟩ := bytesAt_append hcnt
+      obtain ⟨c12, c3⟩ := bytesAt_append c123
+      obtain ⟨c1, c2⟩ := bytesAt_append c12
+      simp only [List.length_append, hl2] at c2 c3 c4
+      have e4 : be16 (sF.octets.extract 0 sF.cursor) 4 = s.qdcount := by
+        rw [be16_extract _ _ _ hcF (by omega)]; exact be16_of_bytesAt c1 (by have := hI.inv.qd; omega)
+      have e6 : be16 (sF.octets.extract 0 sF.cursor) 6 = s.ancount := by
+        rw [be16_extract _ _ _ hcF (by omega)]; exact be16_of_bytesAt c2 (by have := hI.inv.an; omega)
+      have e8 : be16 (sF.octets.extract 0 sF.cursor) 8 = s.nscount := by
+        rw [be16_extract _ _ _ hcF (by omega)]; exact be16_of_bytesAt c3 (by have := hI.inv.ns; omega)
+      have e10 : be16 (sF.octets.extract 0 sF.cursor) 10 = s.arcount := by
+        rw [be16_extract _ _ _ hcF (by omega)]; exact be16_of_bytesAt c4 (by have := hI.inv.ar; omega)
+      -- lengths
+      have hol : o.length = (if s.edns.isSome then 1 else 0) := by
+        have := congrArg List.length hot
+        rw [List.length_map] at this
+        rw [this]; split <;> rfl
+      have htl : t.length = (if s.tsig.isSome then 1 else 0) := by
+        have := congrArg List.length htt
+        rw [List.length_map] at this
+        rw [this]; split <;> rfl
+      have hpend : pend s = o.length + t.length := by rw [hol, htl]; rfl
+      have hRl : (rs ++ o ++ t).length = s.ancount + s.nscount + s.arcount := by
+        simp only [List.length_append]; omega
+      have hrrle : s.rrStart ≤ sF.cursor := rchain_le hr
+      -- questions
+      obtain ⟨lq, hdq, hlq⟩ := decodeQuestions_chain sF wF qs 12 s.rrStart hq hrrle
+      rw [hql] at hdq hlq
+      -- the three record sections
+      obtain ⟨la, p2, hda, hla, hch2, _⟩ := decodeRrs_chain sF wF _ _ _ hr (Nat.le_refl _) s.ancount (by omega)
+      obtain ⟨ln, p3, hdn, hln, hch3, _⟩ := decodeRrs_chain sF wF _ _ _ hch2 (Nat.le_refl _) s.nscount
+        (by rw [List.length_drop]; omega)
+      obtain ⟨lr, p4, hdr, hlr, hch4, htys⟩ := decodeRrs_chain sF wF _ _ _ hch3 (Nat.le_refl _) s.arcount
+        (by rw [List.length_drop, List.length_drop]; omega)
+      have hnil : (((rs ++ o ++ t).drop s.ancount).drop s.nscount).drop s.arcount = [] := by
+        apply List.eq_nil_of_length_eq_zero
+        rw [List.length_drop, List.length_drop, List.length_drop]; omega
+      rw [hnil] at hch4
+      have hp4 : p4 = sF.cursor := hch4
+      refine ⟨⟨be16 (sF.octets.extract 0 sF.cursor) 0, be16 (sF.octets.extract 0 sF.cursor) 2, lq, la, ln, lr⟩,
+        ?_, hlq, hla, hln, hlr, ?_⟩
+      · unfold specDecodeMsg
+        rw [if_neg (by rw [hsz']; omega)]
+        rw [specField16_some (by rw [hsz']; omega), specField16_some (by rw [hsz']; omega),
+          specField16_some (by rw [hsz']; omega), specField16_some (by rw [hsz']; omega),
+          specField16_some (by rw [hsz']; omega), specField16_some (by rw [hsz']; omega)]
+        simp only [e4, e6, e8, e10, hdq, hda, hdn, hdr]
+        rw [if_pos (by rw [hp4, hsz'])]
+      · -- the types of the additional section
+        have hange : s.ancount + s.nscount ≤ rs.length := by
+          have := hI.inv.ar_ge
+          have hp : pend s = (if s.edns.isSome then 1 else 0) + (if s.tsig.isSome then 1 else 0) := rfl
+          omega
+        have hdrop : ((rs ++ o ++ t).drop s.ancount).drop s.nscount = rs.drop (s.ancount + s.nscount) ++ o ++ t := by
+          rw [List.drop_drop, List.append_assoc, List.drop_append_of_le_length (by omega)]
+          simp [List.append_assoc, Nat.add_comm]
+        have htake : (((rs ++ o ++ t).drop s.ancount).drop s.nscount).take s.arcount
+            = rs.drop (s.ancount + s.nscount) ++ o ++ t := by
+          rw [← hdrop]
+          apply List.take_of_length_le
+          rw [List.length_drop, List.length_drop]; omega
+        refine ⟨(rs.drop (s.ancount + s.nscount)).map (itTy sF), ?_⟩
+        show lr.map (·.ty) = _
+        rw [htys, htake, List.map_append, List.map_append]
+        show _ ++ o.map (itTy sF) ++ t.map (itTy sF) = _
+        rw [hot, htt]
+        rfl
+
 end QV.Writer
